@@ -530,7 +530,7 @@ static void wlIdleWake() {
   sim_note("threads", nThreads);
   sim_note("path", path);
   sim_note("n", n);
-  std::unique_ptr<dispenso::ThreadPool> poolOwner(new dispenso::ThreadPool((size_t)nThreads)); // heap: store-buffer fault
+  auto poolOwner = hx::heapNew<dispenso::ThreadPool>((size_t)nThreads); // heap: store-buffer fault
   dispenso::ThreadPool& pool = *poolOwner;
   ctx.pool = &pool;
   // wait until every worker is parked in its (timed) futex wait
@@ -659,7 +659,7 @@ static void wlIdleWakeRepeat() {
   sim_note("threads", nThreads);
   sim_note("rounds", rounds);
   sim_note("path", mixPaths ? -1 : path0);
-  std::unique_ptr<dispenso::ThreadPool> poolOwner(new dispenso::ThreadPool((size_t)nThreads)); // heap: store-buffer fault
+  auto poolOwner = hx::heapNew<dispenso::ThreadPool>((size_t)nThreads); // heap: store-buffer fault
   dispenso::ThreadPool& pool = *poolOwner;
   ctx.pool = &pool;
   dispenso::TaskSet ts(pool);
